@@ -21,8 +21,9 @@ Definition reference_other_rules : list string :=      (* sorted, as the generat
 Definition reference_defs : list (string * string) := [("alpha", "[a-zA-Z_]"); ("idchr", "[a-zA-Z0-9_$#]"); ("num", "[0-9]+")].
 Local Close Scope string_scope.
 
-Inductive kind := KLit (tok : string) | KIdent | KNum | KFloat | KString | KError | KLineEnd.
-Inductive lexeme := Tok (k : kind) (len : nat) | Skip (len : nat) | Comment | Eof.
+Inductive kind := KLit (tok : string) | KIdent | KNum | KFloat | KString | KError | KLf | KCrLf.      (* KLf / KCrLf: the two line-end rules *)
+Inductive skipkind := SCont | SLineComment | SBlank.
+Inductive lexeme := Tok (k : kind) (len : nat) | Skip (w : skipkind) (len : nat) | Comment | Eof.
 
 Definition code (c : ascii) : nat := nat_of_ascii c.
 Definition is_digit (c : ascii) : bool := (48 <=? code c) && (code c <=? 57).
@@ -86,8 +87,8 @@ Section Scanner.
 
   (* candidates in file order; the first of the longest wins *)
   Definition candidates (s : text) : list (lexeme * nat) :=
-    [(Skip (m_cont s), m_cont s); (Skip (m_linecomment s), m_linecomment s); (Skip (m_blank s), m_blank s); (Comment, m_open s);
-     (Tok KLineEnd (m_nl s), m_nl s); (Tok KLineEnd (m_crlf (List.length s) s), m_crlf (List.length s) s)]
+    [(Skip SCont (m_cont s), m_cont s); (Skip SLineComment (m_linecomment s), m_linecomment s); (Skip SBlank (m_blank s), m_blank s); (Comment, m_open s);
+     (Tok KLf (m_nl s), m_nl s); (Tok KCrLf (m_crlf (List.length s) s), m_crlf (List.length s) s)]
     ++ (match m_lit s with Some (tok, n) => [(Tok (KLit tok) n, n)] | None => [] end)
     ++ [(Tok KIdent (m_ident s), m_ident s); (Tok KNum (m_num s), m_num s); (Tok KFloat (m_float s), m_float s); (Tok KError (m_any s), m_any s);
         (Tok KString (m_string s), m_string s)].
@@ -101,8 +102,9 @@ Section Scanner.
     match fuel with O => Some [] | S f =>
     match lex1 s with
     | Eof => Some []
-    | Skip n => lex f (skipn n s)
-    | Tok KLineEnd n => lex f (skipn n s)
+    | Skip _ n => lex f (skipn n s)
+    | Tok KLf n => lex f (skipn n s)
+    | Tok KCrLf n => lex f (skipn n s)
     | Tok k n => option_map (cons (k, firstn n s)) (lex f (skipn n s))
     | Comment => match scan (List.length s) (skipn 2 s) with Closed rest => lex f rest | Unclosed => None end
     end end.
